@@ -129,6 +129,27 @@ def Section.get (s : Section) (m : Str) (dflt : Str) (add : Bool) : Item × Sect
       ((s'.items.getLast?).getD it, s')   -- the returned object is the appended one (session name may be suffixed)
     else (it, s)
 
+/-- `section.get(mnemonic, default=<item>, add)` : a NEW item of the default's type is built from the default's unit, value
+and descr under the requested mnemonic (the default itself is never touched) -/
+def Section.getWithItem (s : Section) (m : Str) (dflt : Item) (add : Bool) : Item × Section :=
+  match s.find (.str m) with
+  | some i => ((s.items[i]?).getD dflt, s)
+  | none =>
+    let it := mkItem m dflt.unit dflt.value dflt.descr
+    if add then
+      let s' := s.append it
+      ((s'.items.getLast?).getD it, s')
+    else (it, s)
+
+/-- `section.<key> = value` for a plain value: `if key in self: self[key] = value`, otherwise an ordinary instance attribute
+is set and the items are untouched -/
+def Section.setAttrValue (s : Section) (k : Str) (v : Str) : Section :=
+  if s.contains (.str k) then
+    match s.setValue (.str k) v with
+    | .ok s' => s'
+    | .error _ => s
+  else s
+
 /-- `list.pop(ix)` as used by `delete_curve` -/
 def Section.pop (s : Section) (i : Int) : Except Err Section :=
   match pyIndex s.items.length i with
